@@ -33,7 +33,9 @@ SPEC = dict(
     assumptions=[
         'only executions produced by this run are judged (runtime monitoring, not proof)',
         'gcc 12 / x86-64 LP64 little-endian, A_SIZE_POINTER=8; library rebuilt from /repo working tree with -fsanitize=address,undefined',
-        'a_real = double (A_SIZE_REAL 8), glibc libm exp/pow/sqrt (error < 1 ulp) behind a_real_exp/pow/sqrt',
+        'full harness: a_real = double (A_SIZE_REAL 8), glibc libm exp/pow/sqrt (error < 1 ulp) behind a_real_exp/pow/sqrt; the float and long double builds '
+        'run the compact companion h_fuzzy_w.c only (membership range clauses, fuzzy gain scheduling with an exact-size scratch block against the binary128 weighted mean; '
+        'even orders only in long double, where odd orders misalign the scratch layout - observed, outside the property text)',
         'parameter domain as in the quantifier: a<=b<=c<=d for trap/tri/lins/linz (all equalities included), non-zero widths for '
         'gauss/gauss2/gbell/sig/psig/s/z/pi, equal positive slopes and c1<=c2 for dsig; |parameters| <= 1e150 * 2^16; flank widths of '
         's/z/pi at least 2^-17 of the magnitude of their break points (below 2^-26 the rounded midpoint (a+b)/2 differs visibly from the real one)',
